@@ -1106,6 +1106,7 @@ def c04_history(model, meta):
         # C02 only speaks about is_running() answers along the history
         problems = [p for p in problems if "is_running()" in p]
         known = []
+        known2 = []
     if not problems and known2:
         problems = known2
         tag = "stale-entry-republished-by-older-iterator"
